@@ -623,5 +623,5 @@ func sampleSpec(run *vc.Run, prop string, idx int) *spec.Spec {
 		return nil
 	}
 	prof := c.Profiles[idx%len(c.Profiles)]
-	return gen.Generate(run.Rand(2, uint64(idx)), id, gen.Opts{Profile: prof, Runtime: true, Thorough: run.Thorough(), Files: c.AllowFiles, Streams: c.Streams, Unions: c.Unions})
+	return gen.Generate(run.Rand(2, uint64(idx)), id, gen.Opts{Profile: prof, Runtime: true, Thorough: run.Thorough(), Files: c.AllowFiles, Streams: c.Streams, Unions: c.Unions, Multipart: c.Multipart, MultipartFew: c.MultipartFew})
 }
